@@ -492,7 +492,7 @@ RUNNERS['copy'] = run_copy
 # =================================================================================================
 # C20: storage / lifetime harness (storage/storage.cpp), clang ASan + UBSan, exhaustive op sequences
 ST_BACKENDS = {'m': 5, 'mc': 7, 'b': 1, 'bq': 2, 'b11': 4}
-ST_TYPES_QUICK = [(1, 1, 5), (1, 4, 0), (40, 8, 2), (41, 8, 2), (64, 64, 4), (200, 8, 1)]
+ST_TYPES_QUICK = [(1, 1, 5), (1, 4, 0), (16, 16, 2), (40, 8, 2), (41, 8, 2), (64, 64, 4), (200, 8, 1)]
 ST_TYPES_THOROUGH = [(1, 4, 0), (8, 8, 0), (32, 8, 2), (40, 8, 2), (41, 8, 2), (48, 8, 2), (56, 8, 0), (57, 8, 2), (64, 8, 0), (200, 8, 1), (512, 8, 2),
                      (16, 16, 2), (32, 32, 0), (64, 64, 4), (40, 8, 4), (40, 8, 3), (4, 8, 1), (24, 8, 3), (1, 1, 5), (3, 2, 5), (100, 4, 0)]
 
